@@ -6,6 +6,7 @@ import (
 	"bytes"
 	"fmt"
 
+	"github.com/mit-pdos/go-nfsd/fh"
 	"github.com/mit-pdos/go-nfsd/nfs"
 	"github.com/mit-pdos/go-nfsd/util/timed_disk"
 )
@@ -25,11 +26,10 @@ type Srv struct {
 	Root []byte
 }
 
+// rootHandle: the handle MOUNT gives out for the root (the repository's own
+// constructor, so a change of the handle format is followed).
 func rootHandle() []byte {
-	b := make([]byte, 16)
-	b[0] = 1 // inum 1 little endian
-	b[8] = 1 // gen 1
-	return b
+	return append([]byte{}, fh.MkRootFh3().Data...)
 }
 
 // StartSrv runs MakeNfs (format or recovery) on d.
